@@ -188,6 +188,16 @@ class P(Prop):
                                    "origin": rng.choice(["FOSSIL", "RENEWABLE_NON_BIO"])}
                     if pg.kind_of(d["cls"]) in ("Storage", "PtiPto"):
                         d["cls"] = "battery"
+                # an Otto-cycle gas engine whose generator has another rated speed, on the other side of the 200 rpm boundary
+                # between the slow-speed and the medium-speed consumer class
+                gs = [d for d in c["plant"]["comps"] if d["cls"] in ("genset", "genset_rect")]
+                if gs and rng.random() < 0.5:
+                    d = rng.choice(gs)
+                    slow = rng.random() < 0.5
+                    d["engine"] = dict(d.get("engine") or {}, rated=Fraction(d["rated"]) * Fraction(11, 10), fuel="NATURAL_GAS", cycle="OTTO",
+                                       speed=100 if slow else 720)
+                    d["engine"].pop("pilot", None)
+                    d["gen_speed"] = rng.choice([1800, 720]) if slow else rng.choice([0, 150])
                 out.append({"stream": "plant", "spec": rng.choice(["IMO", "FUEL_EU_MARITIME", "FUEL_EU_MARITIME"]), "plant": c["plant"], "inp": c["inp"]})
             elif rng.random() < 0.3:
                 # a plant's result charged to a fuel tank that may not cover it (feems.simulation_interface.EnergySource)
